@@ -33,7 +33,9 @@ def _header2comment(header):
     comment = {}
     i = 1
     for elem in header:
-        if not bool(re.search("-{10}", elem)):
+        # A rule is a line made of dashes only. A comment whose
+        # value contains a run of dashes is a comment like any other.
+        if not bool(re.fullmatch("-{10,}", elem)):
             key = re.sub(":.*$", "", elem)
             val = elem[len(key)+1:].strip()
             key = re.sub(" +", "_", key.strip().lower())
